@@ -209,6 +209,11 @@ class DistributedNetwork(BaseManager):
         complete for this peer/connection to become a parent and makes it a
         parent if we don't have one, otherwise just close the connection.
         """
+        # A child advertising branch values does not become our parent: we would
+        # be each others parent
+        if peer in self.children:
+            return
+
         # Explicit None checks because we can get 0 as branch level
         if peer.branch_level is not None and peer.branch_root is not None:
             if not self.parent:
